@@ -1,5 +1,6 @@
 """Ltls (TLS codec sub-check: C19, C05, C06, C07, C01) configuration for ./check"""
 CONF = {
+    'coq_sample': 12,   # cases re-evaluated inside Coq by vm_compute against the extracted runner's output
     'interesting': ['truncated-prefix-of-valid', 'record-length-extreme', 'handshake-type-length', 'clienthello-length-extreme',
                     'sni-length-extreme', 'extension-length-extreme', 'consistent-length-cut', 'field-extreme', 'large-record',
                     'multi-record', 'clienthello', 'sni', 'extensions', 'clienthello-beyond-record', 'encrypted-handshake', 'encrypted-alert',
